@@ -755,7 +755,16 @@ func Derives3In(v ssa.Value, fr *Frame, spec FlowSpec) Tri {
 	opaque := false
 	probe := spec
 	probe.All = false
-	probe.IsSourceIn = nil
+	// a parameter of a function that is not on the frame chain (reached through the stores of a
+	// field family): its argument is not known here
+	probe.IsSourceIn = func(x ssa.Value, xfr *Frame) bool {
+		if p, ok := x.(*ssa.Parameter); ok && len(spec.Family) > 0 {
+			if _, found := xfr.ArgOf(p); !found && (xfr != nil || p.Parent() != rootFunc(v, fr)) {
+				opaque = true
+			}
+		}
+		return false
+	}
 	probe.IsSource = func(x ssa.Value) bool {
 		switch y := x.(type) {
 		case *ssa.Global, *ssa.FreeVar, *ssa.Lookup, *ssa.Next, *ssa.TypeAssert:
@@ -783,6 +792,17 @@ func Derives3In(v ssa.Value, fr *Frame, spec FlowSpec) Tri {
 		return Unknown
 	}
 	return No
+}
+
+// rootFunc: the function at the root of the frame chain fr (v's own function without frames).
+func rootFunc(v ssa.Value, fr *Frame) *ssa.Function {
+	if fr == nil {
+		return v.Parent()
+	}
+	for fr.Parent != nil {
+		fr = fr.Parent
+	}
+	return fr.Site.Parent()
 }
 
 // CheckDerives records a provenance obligation with the three-valued policy: discharged on
